@@ -64,7 +64,7 @@ var auditedBounds = map[string]struct {
 	"(pkg/command.Command).Segments":                 {1, "strings.Split with a non-empty separator returns >= 1 element"},
 	"(did.DID).PubKey":                               {1, "DID literals are built only by Parse/FromPubKey with the varint of code as prefix (C16.R2); Undef returns before"},
 	"(*token/internal/envelope.CIDReader).Read":      {1, "io.Reader contract: 0 <= n <= len(p)"},
-	"pkg/policy/literal.anyAssemble$3":               {2, "sort.Slice passes indexes in range"},
+	"pkg/policy/literal.anyAssemble":                 {2, "sort.Slice passes indexes in range"},
 	"pkg/policy/selector.Parse":                      {5, "seg[1:len-1] under HasPrefix '[' and HasSuffix ']'; lookup[1:len-1] under len(lookup) >= 2; splt[0], splt[1] under sliceRegex (exactly one ':'); seg[1:] under fieldRegex (min length 2)"},
 	"pkg/policy/selector.tokenize":                   {4, "str[col] under col < len(str); str[col-1] with col >= 1 (Parse rejects inputs not starting with '.', and the branch needs a quote at col); str[ofs:col] twice with ofs < col <= len(str)"},
 	"pkg/policy/selector.resolve":                    {2, "b[start:end], runes[start:end]: post-condition of resolveSliceIndices (numeric clause, not decided; operands tied by C12.R4)"},
@@ -100,7 +100,7 @@ var auditedLoops = map[string]struct {
 	reason string
 }{
 	"(pkg/policy.glob).Match": {1, "greedy two-pointer matcher with backtracking: every iteration either advances j, or advances i, or restarts with matchIdx+1 (C13.R1 classifies every step); termination is NOT decided"},
-	"pkg/container.readCar$1": {1, "section loop: every iteration consumes a section through readBlock (>= 1 byte: ldRead rejects empty sections) or returns"},
+	"pkg/container.readCar": {1, "section loop: every iteration consumes a section through readBlock (>= 1 byte: ldRead rejects empty sections) or returns"},
 	"pkg/policy/selector.tokenize": {1, "col is incremented on every path of the body (checked: every latch path carries col' = col+1)"},
 	"(*pkg/policy.ipldPath).String": {1, "walk of the parent chain of an ipldPath: nodes are only created by linking a fresh node to an existing one (statementsFromIPLD / combinePath), so the chain is acyclic and as long as the nesting depth"},
 	"pkg/policy.parseGlob":         {1, "i is incremented by the post statement on every path (checked: every latch path carries i' > i)"},
@@ -184,6 +184,13 @@ func inQPClosure(f *ssa.Function) bool {
 }
 
 func panicSites(x *Ctx, fns []*ssa.Function, R map[*ssa.Function]bool) {
+	// sites are attributed to the confirmed function they belong to (closures to their top-level
+	// function, new helpers to their confirmed callers): moving a panic into a helper changes nothing
+	type inv struct {
+		n     int
+		where []string
+	}
+	per := map[string]*inv{}
 	for _, f := range fns {
 		n := 0
 		var where []string
@@ -200,14 +207,29 @@ func panicSites(x *Ctx, fns []*ssa.Function, R map[*ssa.Function]bool) {
 			continue
 		}
 		name := load.ShortName(f)
-		switch {
-		case inQPClosure(f):
+		if inQPClosure(f) {
 			x.C.Obl("C09.P1", "panic:"+name, where[0], "panic inside a closure handed to go-ipld-prime qp: recovered by the library into an error", true, "")
-		default:
-			a, ok := auditedPanics[name]
-			x.C.Obl("C09.P1", "panic:"+name, where[0], fmt.Sprintf("panic sites in %s are audited (%d: %s)", name, a.n, a.reason), ok && n <= a.n,
-				fmt.Sprintf("%d explicit panic site(s) at %s in decoder-reachable code; audited: %d. A new panic must be removed, guarded by a deferred recover, or justified in the audited table", n, strings.Join(where, ", "), a.n))
+			continue
 		}
+		for _, o := range x.P.Owners(f) {
+			on := load.ShortName(o)
+			if per[on] == nil {
+				per[on] = &inv{}
+			}
+			per[on].n += n
+			per[on].where = append(per[on].where, where...)
+		}
+	}
+	var names []string
+	for n := range per {
+		names = append(names, n)
+	}
+	sort.Strings(names)
+	for _, name := range names {
+		a, ok := auditedPanics[name]
+		n, where := per[name].n, per[name].where
+		x.C.Obl("C09.P1", "panic:"+name, where[0], fmt.Sprintf("panic sites in %s (with its closures and new helpers) are audited (%d: %s)", name, a.n, a.reason), ok && n <= a.n,
+			fmt.Sprintf("%d explicit panic site(s) at %s in decoder-reachable code; audited: %d. A new panic must be removed, guarded by a deferred recover, or justified in the audited table", n, strings.Join(where, ", "), a.n))
 	}
 	// Must* helpers with panics are not reachable
 	for _, name := range []string{"pkg/policy.mustParseGlob"} {
@@ -271,7 +293,7 @@ func mustAccessors(x *Ctx, fns []*ssa.Function) {
 		if len(calls) == 0 {
 			continue
 		}
-		ps := x.pathsQuiet(f)
+		ps := x.sitePaths(f)
 		for i, c := range calls {
 			n++
 			acc := strings.TrimPrefix(paths.StaticCallee(c).String(), "github.com/ipld/go-ipld-prime/must.")
@@ -309,7 +331,7 @@ func mustAccessors(x *Ctx, fns []*ssa.Function) {
 
 func nilAPIs(x *Ctx, fns []*ssa.Function) {
 	for _, f := range fns {
-		ps := x.pathsQuiet(f)
+		ps := x.sitePaths(f)
 		counts := map[string]int{}
 		for _, b := range f.Blocks {
 			for _, in := range b.Instrs {
@@ -396,7 +418,7 @@ func nilAPIs(x *Ctx, fns []*ssa.Function) {
 // discardedErrors: calls returning (T, error) whose error is unused while T is used.
 func discardedErrors(x *Ctx, fns []*ssa.Function) {
 	for _, f := range fns {
-		ps := x.pathsQuiet(f)
+		ps := x.sitePaths(f)
 		counts := map[string]int{}
 		for _, b := range f.Blocks {
 			for _, in := range b.Instrs {
@@ -426,8 +448,10 @@ func discardedErrors(x *Ctx, fns []*ssa.Function) {
 				counts[label]++
 				key := fmt.Sprintf("discarded:%s:%s#%d", load.ShortName(f), label[strings.LastIndex(label, ".")+1:], counts[label])
 				ok2, why := discardIdiom(x, f, ps, c, label)
-				if r, audited := auditedDiscards[load.ShortName(f)+"|"+label]; audited {
-					ok2, why = true, "audited: "+r
+				for _, o := range x.P.Owners(f) {
+					if r, audited := auditedDiscards[load.ShortName(o)+"|"+label]; audited {
+						ok2, why = true, "audited: "+r
+					}
 				}
 				x.C.Obl("C09.P4", key, x.P.Pos(c.Pos()), "the error of "+label+" is discarded and its value used: the call must be total under a fact on the path ("+why+")", ok2,
 					"no recognised idiom makes this call total: check the error, or establish the kind / length fact before the call")
@@ -540,7 +564,7 @@ func boundsChecks(x *Ctx, R map[*ssa.Function]bool) {
 	}
 	// map positions to the enclosing function declaration and the innermost expression
 	perFn := map[string][]string{}
-	total, direct := 0, 0
+	total, direct, discharged := 0, 0, 0
 	for _, pk := range x.P.Pkgs {
 		lib := false
 		rel := strings.TrimPrefix(strings.TrimPrefix(pk.PkgPath, load.Module), "/")
@@ -592,13 +616,27 @@ func boundsChecks(x *Ctx, R map[*ssa.Function]bool) {
 					continue // body of an inlined callee (position resolves to a call): not an obligation here
 				}
 				direct++
+				if why := ownCounterIndex(inner, encl); why != "" {
+					discharged++
+					continue
+				}
 				fn := enclosingFunc(x, pk.PkgPath, file, inner.Pos())
-				perFn[fn] = append(perFn[fn], fmt.Sprintf("%s:%d %s", relName, s.line, types.ExprString(inner.(ast.Expr))))
+				owners := []string{fn}
+				if g := x.P.Func(fn); g != nil {
+					owners = nil
+					for _, o := range x.P.Owners(g) {
+						owners = append(owners, load.ShortName(o))
+					}
+				}
+				for _, o := range owners {
+					perFn[o] = append(perFn[o], fmt.Sprintf("%s:%d %s", relName, s.line, types.ExprString(inner.(ast.Expr))))
+				}
 			}
 		}
 	}
 	x.C.Extra["bce_reports_in_library"] = total
 	x.C.Extra["bce_direct_expressions"] = direct
+	x.C.Extra["bce_discharged_by_own_loop_counter"] = discharged
 	var names []string
 	for n := range perFn {
 		names = append(names, n)
@@ -612,6 +650,93 @@ func boundsChecks(x *Ctx, R map[*ssa.Function]bool) {
 			fmt.Sprintf("the compiler cannot prove %d index / slice expression(s) in range (audited: %d):\n  %s\nadd a dominating guard the compiler can see, or justify the site in the audited table", len(got), a.n, strings.Join(got, "\n  ")))
 	}
 	x.C.Obl("C09.P5", "bce-ran", "-", "the compiler's prove pass was consulted", total > 0, out.String())
+}
+
+// ownCounterIndex discharges X[i] when i is the counter of the innermost enclosing loop over that
+// very expression (`for i := range X`, `for i := 0; i < len(X); i++`) and neither i nor X is assigned
+// in the loop body. The compiler leaves such a check in place only because X (a field) is reloaded after
+// calls; the fields concerned are not written after construction (C20).
+func ownCounterIndex(inner ast.Node, encl []ast.Node) string {
+	ie, ok := inner.(*ast.IndexExpr)
+	if !ok {
+		return ""
+	}
+	id, ok := ie.Index.(*ast.Ident)
+	if !ok || id.Obj == nil {
+		return ""
+	}
+	xs := types.ExprString(ie.X)
+	if strings.ContainsAny(xs, "([") {
+		return ""
+	}
+	for k := len(encl) - 1; k >= 0; k-- {
+		if encl[k].Pos() > inner.Pos() || inner.End() > encl[k].End() {
+			continue
+		}
+		var body *ast.BlockStmt
+		switch l := encl[k].(type) {
+		case *ast.RangeStmt:
+			key, ok := l.Key.(*ast.Ident)
+			if !ok || key.Obj != id.Obj || l.Tok != token.DEFINE {
+				continue
+			}
+			if types.ExprString(l.X) != xs {
+				return ""
+			}
+			body = l.Body
+		case *ast.ForStmt:
+			as, ok := l.Init.(*ast.AssignStmt)
+			if !ok || as.Tok != token.DEFINE || len(as.Lhs) != 1 || len(as.Rhs) != 1 {
+				continue
+			}
+			iv, ok := as.Lhs[0].(*ast.Ident)
+			if !ok || iv.Obj != id.Obj {
+				continue
+			}
+			if lit, ok := as.Rhs[0].(*ast.BasicLit); !ok || lit.Value != "0" {
+				return ""
+			}
+			cond, ok := l.Cond.(*ast.BinaryExpr)
+			if !ok || cond.Op != token.LSS || types.ExprString(cond.X) != id.Name || types.ExprString(cond.Y) != "len("+xs+")" {
+				return ""
+			}
+			inc, ok := l.Post.(*ast.IncDecStmt)
+			if !ok || inc.Tok != token.INC || types.ExprString(inc.X) != id.Name {
+				return ""
+			}
+			body = l.Body
+		default:
+			continue
+		}
+		clean := true
+		ast.Inspect(body, func(n ast.Node) bool {
+			switch n := n.(type) {
+			case *ast.AssignStmt:
+				for _, lhs := range n.Lhs {
+					ls := types.ExprString(lhs)
+					if ls == id.Name || ls == xs || strings.HasPrefix(xs, ls+".") {
+						clean = false
+					}
+				}
+			case *ast.IncDecStmt:
+				if types.ExprString(n.X) == id.Name {
+					clean = false
+				}
+			case *ast.UnaryExpr:
+				if n.Op == token.AND {
+					if us := types.ExprString(n.X); us == id.Name || us == xs {
+						clean = false
+					}
+				}
+			}
+			return true
+		})
+		if clean {
+			return "counter of the enclosing loop over " + xs
+		}
+		return ""
+	}
+	return ""
 }
 
 // enclosingFunc names the SSA function (top-level declaration or closure) containing pos.
@@ -661,7 +786,9 @@ func typeAsserts(x *Ctx, fns []*ssa.Function) {
 		for _, b := range f.Blocks {
 			for _, in := range b.Instrs {
 				if ta, ok := in.(*ssa.TypeAssert); ok && !ta.CommaOk && ta.Pos().IsValid() {
-					per[load.ShortName(f)] = append(per[load.ShortName(f)], x.P.Pos(ta.Pos())+" .("+paths.Short(ta.AssertedType.String())+")")
+					for _, o := range x.P.Owners(f) {
+						per[load.ShortName(o)] = append(per[load.ShortName(o)], x.P.Pos(ta.Pos())+" .("+paths.Short(ta.AssertedType.String())+")")
+					}
 				}
 			}
 		}
@@ -682,32 +809,48 @@ func typeAsserts(x *Ctx, fns []*ssa.Function) {
 }
 
 func loopsRule(x *Ctx, fns []*ssa.Function) {
+	// unrecognised loops are attributed to the confirmed function they belong to (see panicSites)
+	type inv struct {
+		loops, unrec int
+		kinds        []string
+		pos          string
+	}
+	per := map[string]*inv{}
+	var names []string
 	for _, f := range fns {
 		fi := paths.Info(f)
 		if len(fi.Loops) == 0 {
 			continue
 		}
-		unrec := 0
-		var kinds []string
-		for _, l := range fi.Loops {
-			k := loopKind(x, f, l)
-			kinds = append(kinds, k)
-			if k == "unrecognised" {
-				unrec++
+		for _, o := range x.P.Owners(f) {
+			on := load.ShortName(o)
+			if per[on] == nil {
+				per[on] = &inv{pos: x.pos(o)}
+				names = append(names, on)
+			}
+			for _, l := range fi.Loops {
+				k := loopKind(x, f, l)
+				per[on].loops++
+				per[on].kinds = append(per[on].kinds, k)
+				if k == "unrecognised" {
+					per[on].unrec++
+				}
 			}
 		}
-		name := load.ShortName(f)
-		a := auditedLoops[name]
-		ok := unrec <= a.n
 		// scanning loops whose index also backs audited bounds checks: the index advances by one, or by
 		// two only when the second position exists — whatever shape the loop is recognised as
-		switch name {
+		switch name := load.ShortName(f); name {
 		case "pkg/policy/selector.tokenize", "pkg/policy.parseGlob":
 			x.C.Obl("C09.T1", "index-invariant:"+name, x.pos(f), "on every iteration the scan index advances by exactly one, or by two under the fact index+1 < len (so index <= len stays invariant and the audited index / slice expressions stay in range)",
 				everyLatchAdvances(x, f, fi.Loops[0]), "an iteration advances the index by another amount, or by two without the guard index+1 < len: the index can pass the end of the input")
 		}
-		x.C.Obl("C09.T1", "loops:"+name, x.pos(f), fmt.Sprintf("the %d loop(s) of %s are bounded idioms %v", len(fi.Loops), name, kinds), ok,
-			fmt.Sprintf("%d loop(s) are not a recognised bounded idiom (counted with a monotone step, range, iterator Done/Next) and only %d are audited: %s", unrec, a.n, a.reason))
+	}
+	sort.Strings(names)
+	for _, name := range names {
+		a := auditedLoops[name]
+		i := per[name]
+		x.C.Obl("C09.T1", "loops:"+name, i.pos, fmt.Sprintf("the %d loop(s) of %s (with its closures and new helpers) are bounded idioms %v", i.loops, name, i.kinds), i.unrec <= a.n,
+			fmt.Sprintf("%d loop(s) are not a recognised bounded idiom (counted with a monotone step, range, iterator Done/Next) and only %d are audited: %s", i.unrec, a.n, a.reason))
 	}
 }
 
@@ -805,7 +948,7 @@ func signedConversions(x *Ctx, fns []*ssa.Function) {
 		if len(convs) == 0 {
 			continue
 		}
-		ps := x.pathsQuiet(f)
+		ps := x.sitePaths(f)
 		for _, c := range convs {
 			n++
 			for _, p := range ps {
@@ -1097,7 +1240,7 @@ func growsFromParam(x *Ctx, a *paths.Term, self string) bool {
 
 func allocations(x *Ctx, fns []*ssa.Function) {
 	for _, f := range fns {
-		ps := x.pathsQuiet(f)
+		ps := x.sitePaths(f)
 		n := 0
 		for _, b := range f.Blocks {
 			for _, in := range b.Instrs {
